@@ -412,6 +412,19 @@ class Sym:
                 except Exception:
                     pass
             return [(st, (VAL, ("const", n["path"], v["v"])))]
+        # a constant of this crate whose value the driver could not print (`const DNS: Self = Self(Uuid::NAMESPACE_DNS)`): its
+        # initialiser is evaluated like a function body without parameters (constants are pure)
+        cb = self.fx.bodies.get(n["path"])
+        if cb is not None and str(cb.get("kind", "")).startswith(("Const", "AssocConst")) and cb["krate"] in self.krates \
+                and cb["path"] not in self.stack and len(self.stack) <= self.inline_depth + 2:
+            self.stack.append(cb["path"])
+            try:
+                outs = self.ev(cb["body"], St(conds=st.conds, effects=st.effects, n=st.n))
+            finally:
+                self.stack.pop()
+            vals_ = [v2 for s2, (k2, v2) in outs if k2 == VAL]
+            if len(outs) == 1 and len(vals_) == 1 and outs[0][0].effects == st.effects and outs[0][0].conds == st.conds:
+                return [(st, (VAL, vals_[0]))]
         return [(st, (VAL, ("const", n["path"], None)))]
 
     def ev_Zst(self, n, st):
